@@ -28,7 +28,7 @@ const c11Rule = "operand tuples over nil, int (boundary set: 0, +-1, +-2, 63, 64
 	"all kind pairings enumerated exhaustively per operator in every run; non-trivial = every tuple (each is one operator application compared with the model plus the laws); distinct by operator and operand rendering"
 
 var c11Ints = []int{0, 1, -1, 2, -2, 3, 7, 63, 64, 65, 1 << 31, -(1 << 31), 1<<53 + 1, 1<<53 - 1, -(1<<53 + 1), math.MinInt64, math.MaxInt64, math.MinInt64 + 1, 10, 100}
-var c11Floats = []float64{0, math.Copysign(0, -1), 1, -1, 0.5, 2.5, -2.5, math.Inf(1), math.Inf(-1), math.NaN(), 5e-324, 1e308, 1 << 53, 1<<53 + 2, 3, 7}
+var c11Floats = []float64{0, math.Copysign(0, -1), 1, -1, 0.5, 2.5, -2.5, math.Inf(1), math.Inf(-1), math.NaN(), 5e-324, 1e308, 1 << 53, 1<<53 + 2, 3, 7, 9223372036854775808.0, -9223372036854775808.0, 4611686018427387904.0, 1e19, -1e19, 9223372036854774784.0}
 var c11Strings = []string{"", "a", "ab", "apple", "x\ny", "é", "12", "1.5"}
 
 func genValue(t *rapid.T, depth int) ref.V {
